@@ -1,6 +1,7 @@
 #!/bin/bash
 # usage: eval_pair.sh Cxx [extra eval_seeded args]  -- evaluates variants A and B and prints one line each
 p=$1; shift
+mkdir -p /tmp/seed/$p
 for x in A B; do
   $(dirname $0)/eval_seeded.py $p $x "$@" > /tmp/seed/$p/eval$x.log 2>&1
   python3 - "$p" "$x" <<'PY'
